@@ -489,3 +489,38 @@ package keeper
 //@   invariant #1 idx: rangeindex >= 0 - 1 && rangeindex < len(rules)
 //@   invariant #1 frame: active == old(active) && pools == set(old(pools), pool.Id, with(pool, "Rules", zero(pool.Rules)))
 //@ end
+
+// ---------------------------------------------------------------------------------------------
+// Pool creation: the base case of the invariants (C05, C06, C13)
+
+//@ define newRule(d, total, rpb) = with(with(with(with(with(zero(RULE("", "")), "Reward", d), "TotalReward", total), "RemainingReward", total), "RewardPerBlock", rpb), "RewardPerShare", dec(0))
+// the id is new: no record and no rule under it yet (A-POOLID: ids are "farm-<n>" for a strictly increasing n)
+//@ define freshId(i) = !old(has(pools, i)) && (forall d:Str :: !old(has(ruleF, i, d))) && (forall h:Int :: !old(has(active, h, i)))
+
+//@ func Keeper.createPool
+//@   property C05, C06, C13
+//@   returns np, err
+//@   requires height >= 0 && startHeight >= height && ufb("denom_valid", lptDenom)
+//@   requires len(totalReward) > 0
+//@   requires forall d:Str :: amt(totalReward, d) > 0 ==> amt(rewardPerBlock, d) > 0 && ufb("denom_valid", d) && amt(totalReward, d) div amt(rewardPerBlock, d) <= 9223372036854775807
+//@   uses coinsListI(totalReward, 0)
+//@   uses coinsListD(totalReward, "")
+//@   uses ridxRange(zero(POOL("").Rules), "")
+//@   uses ridxHit(zero(POOL("").Rules), 0)
+//@   modifies ruleF, pools, active, poolSeq
+//@   invariant #1 idx:   rangeindex >= 0 - 1 && rangeindex < len(totalReward) && len(pool.Rules) == rangeindex + 1
+//@   invariant #1 list:  forall j:Int :: 0 <= j && j <= rangeindex ==> pool.Rules[j] == newRule(coinat(totalReward, j).Denom, coinat(totalReward, j).Amount, amt(rewardPerBlock, coinat(totalReward, j).Denom))
+//@   invariant #1 done:  forall d:Str :: amt(totalReward, d) > 0 && cidx(totalReward, d) <= rangeindex ==> has(ruleF, pool.Id, d) && RULE(pool.Id, d) == newRule(d, amt(totalReward, d), amt(rewardPerBlock, d))
+//@   invariant #1 rest:  (forall d:Str :: !(amt(totalReward, d) > 0 && cidx(totalReward, d) <= rangeindex) ==> has(ruleF, pool.Id, d) == old(has(ruleF, pool.Id, d)) && RULE(pool.Id, d) == old(RULE(pool.Id, d)))
+//@                    && (forall p:Str :: forall d:Str :: p != pool.Id ==> has(ruleF, p, d) == old(has(ruleF, p, d)) && RULE(p, d) == old(RULE(p, d)))
+//@   invariant #1 frame: pools == old(pools) && active == old(active)
+//@                    && pool.StartHeight == startHeight && pool.Creator == bech(creator) && pool.Editable == editable && pool.TotalLptLocked == coin(lptDenom, 0) && pool.LastHeightDistrRewards == 0
+//@   ensures rules:    err == nil ==> (forall d:Str :: amt(totalReward, d) > 0 ==> has(ruleF, np.Id, d) && RULE(np.Id, d) == newRule(d, amt(totalReward, d), amt(rewardPerBlock, d)))
+//@   ensures rules_only: err == nil && freshId(np.Id) ==> (forall d:Str :: has(ruleF, np.Id, d) ==> amt(totalReward, d) > 0)
+//@   ensures rule_frame: err == nil ==> (forall p:Str :: forall d:Str :: p != np.Id ==> has(ruleF, p, d) == old(has(ruleF, p, d)) && RULE(p, d) == old(RULE(p, d)))
+//@   ensures record:   err == nil ==> has(pools, np.Id) && POOL(np.Id) == with(np, "Rules", zero(np.Rules)) && np.StartHeight == startHeight && np.Creator == bech(creator)
+//@                        && np.Editable == editable && np.TotalLptLocked == coin(lptDenom, 0) && np.LastHeightDistrRewards == 0 && np.EndHeight >= startHeight
+//@   ensures covered:  err == nil ==> (forall d:Str :: amt(totalReward, d) > 0 ==> amt(rewardPerBlock, d) * (np.EndHeight - startHeight) <= amt(totalReward, d))
+//@   ensures queued:   err == nil ==> active == set(old(active), np.EndHeight, np.Id, np.Id)
+//@   ensures pools_frame: err == nil ==> (forall p:Str :: p != np.Id ==> has(pools, p) == old(has(pools, p)) && POOL(p) == old(POOL(p)))
+//@ end
